@@ -34,10 +34,12 @@ CASES = [
   "IndexToPath (loop body): left descent subtracts 2 for an index >= 2^30", "hardly: only in trees of height 30"),
  ("m11", "mutation", "bitmap/next.go", "\t\tfor ; i < end; i += 64 {\n", "\t\tfor ; i < end; i += 64 + (i>>30)<<6 {\n",
   "NextOne (loop step): the stride doubles for positions >= 2^30", "no: needs a bitmap of more than 2^30 bits"),
+ ("m12", "mutation", "bitmap/select.go", "\tfor wordI := a>>6 + 1; wordI < l; wordI++ {\n", "\tfor wordI := a>>6 + 1 + a>>30; wordI < l; wordI++ {\n",
+  "Select32 (second loop): the scan for the next 1-bit starts one word late for positions >= 2^30", "no: needs a bitmap of more than 2^30 bits"),
  ("r8", "rewrite", "bmtree/partial_tree.go", "\tfor b != 0 {\n", "\tfor {\n\t\tif b == 0 {\n\t\t\tbreak\n\t\t}\n",
   "shiftMulti: loop condition moved into the body as if/break", "-"),
  ("x1", "structural", "bmtree/pathlen.go", "\treturn int32(bits.OnesCount32(uint32(p)))\n", "\tn := int32(0)\n\tfor q := uint32(p); q != 0; q &= q - 1 {\n\t\tn++\n\t}\n\treturn n + int32(bits.OnesCount32(0))\n",
-  "PathLen rewritten as a loop (same value): no longer translatable", "-"),
+  "PathLen rewritten as a loop (same value): translated as a fuel loop now, the proof expects straight-line code", "-"),
  ("x2", "structural", "bitmap/get.go", "func Get1(bm []uint64, i int32) uint64 {", "func Get1(bm []uint64, i int32) uint64 {\n\tvar undefinedType notAType\n",
   "bitmap/get.go no longer type-checks", "-"),
  ("x3", "structural", "bitmap/get.go", "func Get1(bm []uint64, i int32) uint64 {", "func Get1Renamed(bm []uint64, i int32) uint64 {",
